@@ -27,7 +27,7 @@ def is_next_of(e):
 def check(run, prog, tier):
     run.rule("C10-a", "every unlink of a pending call adds the removed node's delta to its successor (or the removed delta is 0); insertion subtracts the new delta from the successor", 5)
     run.rule("C10-b", "call_out(): the slot head is advanced before the callback runs; setjmp is re-armed per entry; the entry is freed on both setjmp branches; call_out_time advances only after the slot chain is drained", 5)
-    run.rule("C10-c", "call_out(): apply is reached only past the O_DESTRUCTED test of the target; destructed object arguments are replaced by 0 before they are pushed", 2)
+    run.rule("C10-c", "call_out(): apply is reached only past the O_DESTRUCTED test of the target; destructed object arguments are replaced by 0 before they are pushed; a function-pointer call_out is run only past an O_DESTRUCTED test of the pointer's owner", 3)
 
     cg = callgraph.CallGraph(prog)
     eff = callgraph.Effects(cg)
@@ -174,6 +174,26 @@ def check(run, prog, tier):
     if okc:
         whyc = "apply(cop->function.s, cop->ob, ...) only past the false edge of `cop->ob->flags & O_DESTRUCTED`"
     run.ob("C10-c", "target-live", okc, whyc, co.file, ap[0][2].get("l") if ap else co.line, "call_out", what="call_out(): a destructed object's call_out is applied")
+    # the same for call_outs of a function pointer: they belong to the pointer's owner
+    fpc = [(b, i, n) for b, i, n in invoke if n["fn"] == "call_function_pointer"]
+    if fpc:
+        edges2 = set()
+        for bid in co.reachable():
+            c = co.branch_cond(bid)
+            if c is None:
+                continue
+            e, t = normalize_cond(c, True)
+            if facts.any_in_macro(e, "O_DESTRUCTED") and "owner" in show(e):
+                blk = co.blocks[bid]
+                s2 = blk.succ[1] if t else blk.succ[0]
+                if s2 is not None:
+                    edges2.add((bid, s2))
+        p = None
+        for b, i, n in fpc:
+            p = p or co.reach_avoiding([db[0].id], lambda blk, bb=b.id: blk.id == bb, avoid_edges=edges2)
+        run.ob("C10-c", "owner-live", bool(edges2) and p is None, "call_function_pointer(cop->function.f, ...) only past the false edge of an O_DESTRUCTED test of the pointer's owner" if edges2 and p is None else
+               ("no O_DESTRUCTED test of the function pointer's owner in call_out()" if not edges2 else "path %s reaches call_function_pointer without passing the owner's not-destructed edge" % p[:8]),
+               co.file, fpc[0][2].get("l"), "call_out", what="call_out(): a function-pointer call_out is run after its owner was destructed")
     push = [(b, i, n) for b, i, n in co.calls("transfer_push_some_svalues")]
     scrub = [(b, i, n) for b, i, n in co.nodes() if n.get("k") == "Asg" and show(strip(n["R"])) == "const0" and
              any(t and facts.any_in_macro(c, "O_DESTRUCTED") for c, t, B in cfgq.guards(co, b.id))]
